@@ -88,6 +88,17 @@ def handlerD (fn : String) : Option Handler :=
             -- (valid result) every corner of the result is in the box
             if (List.range 3).all (fun i => R.mins.get i ≤ R.maxs.get i) then allIn3 x (corners3 R) else "pass"
         | none => "skip bad-args" }
+  | "aabb_take_point" => some {
+      model := fun a => run (do let x ← paabb3; let p ← pv3; pure (faabb3 (x.takePoint p))) a
+      oracle := fun a o => match run (do let x ← paabb3; let p ← pv3; pure (x, p)) a with
+        | some (x, p) => withOut poaabb3 o fun r =>
+            let X := qaabb3 x; let P := q3 p
+            -- an invalid (inverted) box holds no point: the result must be the single point
+            let valid := (List.range 3).all fun i => X.mins.get i ≤ X.maxs.get i
+            let pts := if valid then P :: corners3 X else [P]
+            let res := allIn3 r pts
+            if res != "pass" then res else if tight3 r pts then "pass" else "fail not-tight"
+        | none => "skip bad-args" }
   | "co3_hist_aabb" => some {
       model := fun a => run (do let c ← pcomp3; let ss ← plist pv3; pure (optS faabb3 (c.histAabb ss))) a
       oracle := fun a o => match run (do let c ← pcomp3; let ss ← plist pv3; pure (c, ss)) a with
